@@ -47,7 +47,7 @@ def run(tier, replay=None):
         for b in beh:
             f.write(json.dumps(b) + "\n")
     drive = vlib.build_harness(cmd="c15")
-    n, workers = (200, 8) if quick else (7000, 8)
+    n, workers = (130, 8) if quick else (5000, 8)
     st = vlib.run_driver(drive, ["-out", c.work / "c15", "-gen", genf, "-work", c.work / "run", "-seed", c.seed,
                                  "-n", n, "-workers", workers] + ([] if quick else ["-thorough"]), timeout=3000)
     # vacuity guards (machinery, never a verdict)
